@@ -221,7 +221,7 @@ def check_property(prop, cfg, tier="quick", seed=0):
             for k, v in r.get("coverage", {}).items(): extra_cov[k] = v
         # bounded fallbacks: consulted ONLY when the deductive check is undecided (lost anchor, construct outside the subset, ...). A failing
         # input they find on the real code is a violation with a concrete replay; finding none leaves the verdict undecided (exit 2).
-        if not violations and (tool_errors or undecided):
+        if not violations and (tool_errors or undecided) and not os.environ.get("VX_NO_FALLBACK"):   # (VX_NO_FALLBACK: developer knob of tools/mutate.py)
             fb = list(cfg.get("fallback", []))
             if tier != "thorough":
                 fb += [e for e in cfg.get("thorough_engines", []) if e not in fb]     # the real-code history replays double as fallbacks
